@@ -121,6 +121,13 @@ def tokenOfMsg (msg : Str) : Option Str :=
     else some r       -- an int (NUMBER token)
   | [] => none
 
+/-- remove line continuations whose backslash is not itself escaped (`\\\\` + newline keeps both) -/
+def stripContParity : Str → Str
+  | '\\' :: '\n' :: rest => stripContParity rest
+  | '\\' :: c :: rest => '\\' :: c :: stripContParity rest
+  | c :: rest => c :: stripContParity rest
+  | [] => []
+
 /-- C11 on one error outcome for input `s` -/
 def errOK (s : Str) (line : String) : List Viol :=
   match parsePE line with
@@ -133,8 +140,8 @@ def errOK (s : Str) (line : String) : List Viol :=
       (t.length < sc.length && (List.range (sc.length - t.length + 1)).any fun i => Str.slice sc i (i + t.length) == t)
     let srcCtx := if src == s then "" else
       if src == s ++ ['\n'] then "+added-newline"
-      -- (a later part's source is a suffix, a nested parser's lies inside a word: never a proper prefix)
-      else if src.isPrefixOf s then "+prefix"
+      -- (the input without the newline it ends in is nobody's source: a later part's is a suffix, a nested parser's lies inside a word)
+      else if src ++ ['\n'] == s then "+lost-final-newline"
       else if isSub src then "+substring"
       else if src.getLast? == some '\n' && isSub src.dropLast then "+substring+added-newline"
       else "+other"
@@ -146,6 +153,7 @@ def errOK (s : Str) (line : String) : List Viol :=
         -- a NEWLINE token reported at end of input stands for the implicit final newline
         -- (an operator may be split by a line continuation: `|\<newline>|` is the token `||`)
         if tok.isPrefixOf (s.drop pos.toNat) || tok.isPrefixOf (Spec.stripContinuations (s.drop pos.toNat)) ||
+           tok.isPrefixOf (stripContParity (s.drop pos.toNat)) ||
            (tok == ['\n'] && pos.toNat == s.length) ||
            (tok.all isDigit && (s.drop pos.toNat).head?.map isDigit == some true) then []
         else ["token-not-at-position"]
